@@ -9,6 +9,7 @@ import (
 	"regexp"
 	"sort"
 	"strings"
+	"sync"
 )
 
 const (
@@ -97,6 +98,7 @@ type TermBank struct {
 	bcache       map[*Term][2]*big.Int
 	// terms known to equal a literal on every path where they exist (from requires / callee results)
 	known map[*Term]*Term
+	mu    sync.Mutex // serialises script generation (axiom instantiation creates terms)
 }
 
 func NewBank() *TermBank {
@@ -1262,6 +1264,8 @@ func (b *TermBank) sexpr(t *Term, names map[*Term]string) string {
 // Script builds an SMT-LIB2 script that is unsat iff (and assumptions) => goal is valid.
 // prelude is raw SMT-LIB text (spec functions); symbols it defines are listed in preDefined.
 func (b *TermBank) Script(assumptions []*Term, goal *Term, pre *preludeInfo, extra string, extraAxioms func(seen map[*Term]bool) []*Term) string {
+	b.mu.Lock()
+	defer b.mu.Unlock()
 	preDefined := map[string]bool{}
 	if pre != nil {
 		for k := range pre.defined {
